@@ -15,12 +15,14 @@ Bounded stand-in (real IMAPServer + dict backend over in-memory streams; two ses
   fork after every command), CommandResponse.add_untagged (FETCH merging).
 """
 from pyvc.prop import Property, Bounded
-from . import selected as S
+from . import selected as S, state as ST
 from harness.e2e_views import bounded_views
+from harness.e2e_idle import bounded_idle_races
 
 PROPERTY = Property(
     'C01', 'Sequence numbers: the client view never diverges from the server',
-    contracts=[S.sm_update, S.sm_remove, S.compare] + S.CONTRACTS_LINK, registry=S.REG,
+    contracts=[S.sm_update, S.sm_remove, S.compare] + S.CONTRACTS_LINK + [ST.do_command_sel],
+    registry=dict(list(ST.REG.items()) + list(S.REG.items())),
     bounded=[Bounded(
         'two sessions on one mailbox, client model',
         'quick: every victim program of 2 commands from 9 (NOOP, FETCH, UID FETCH x2, STORE, STORE.SILENT, UID '
@@ -28,7 +30,12 @@ PROPERTY = Property(
         'expunge middle, append, flag change, expunge+append}; thorough: 15 victim commands x 7 mutations, length 2, '
         'plus length 3 over 6 x 4; after every command the response stream is applied to a client model and the '
         'server numbering is probed with a non-UID FETCH 1:* (UID); at the end NOOP + comparison with the mailbox',
-        bounded_views('C01'), decisive=True)],
+        bounded_views('C01'), decisive=True),
+        Bounded('IDLE: a change and DONE close together (real server, client model)',
+                'every change kind {append, two appends, expunge lowest / middle, flag change} x DONE before / after the change '
+                'at 0..11 (thorough 0..23) event-loop turns distance; DONE sent while the transport is blocked on an earlier '
+                'notification, bursts of 1-2 changes; afterwards NOOP and a non-UID FETCH 1:* probed against the client model',
+                bounded_idle_races('C01'), decisive=False)],
     level='other', design_ref='6 C01',
     explanation='deductive: RI of the synchronized message list and the ghost-client stream condition of _compare '
                 '(all obligations discharged by z3); bounded: the session/connection glue and FETCH merging, '
